@@ -110,7 +110,7 @@ func (f *RawMessageFilter) processConsensusMessage(message interfaces.ConsensusM
 	defer func() {
 		if r := recover(); r != nil { // malformed nested content (votes, proofs) surfaces only when it is read; also covers cached messages
 			f.logger.Info("LHFILTER LHMSG IGNORING MESSAGE THAT FAILED TO PARSE: %v", r)
-			verifRecovered(f, r)
+			verifRecovered(f, r, message)
 		}
 	}()
 
